@@ -158,7 +158,60 @@ def _writer_mcmc(base, version, big):
     m.save_full_state()
 
 
+def _quiet(f):
+    import contextlib
+    import io
+    with contextlib.redirect_stdout(io.StringIO()):
+        f()
+
+
+def _toy(version):
+    import torch
+    from torchtree.core.parameter import Parameter
+    from torchtree.distributions.distributions import Distribution
+    p = Parameter("version", torch.full((3,), float(version)))
+    loss = Distribution("loss", torch.distributions.Normal, p,
+                        {"loc": Parameter(None, torch.tensor([0.0])), "scale": Parameter(None, torch.tensor([1.0]))})
+    return p, loss
+
+
+def _writer_optimizer_run(base, version, big):
+    """The periodic checkpoint of the optimisation loop itself (Optimizer._run)."""
+    import torch
+    from torchtree.optim.optimizer import Optimizer
+    from torchtree.distributions.joint_distribution import JointDistributionModel
+    p, loss = _toy(version)
+    j = JointDistributionModel("j", [loss])
+    opt = Optimizer("opt", [p], j, torch.optim.SGD([p.tensor], lr=0.0), 1, checkpoint=base, checkpoint_frequency=1)
+    _quiet(opt.run)
+
+
+def _writer_optimizer_run_lbfgs(base, version, big):
+    import torch
+    from torchtree.optim.optimizer import Optimizer
+    from torchtree.distributions.joint_distribution import JointDistributionModel
+    p, loss = _toy(version)
+    j = JointDistributionModel("j", [loss])
+    p.requires_grad = True
+    opt = Optimizer("opt", [p], j, torch.optim.LBFGS([p.tensor], lr=0.0, max_iter=1), 1, checkpoint=base, checkpoint_frequency=1)
+    _quiet(opt.run)
+
+
+def _writer_mcmc_run(base, version, big):
+    from torchtree.distributions.joint_distribution import JointDistributionModel
+    from torchtree.inference.mcmc.mcmc import MCMC
+    from torchtree.inference.mcmc.operator import SlidingWindowOperator
+    p, loss = _toy(version)
+    j = JointDistributionModel("j", [loss])
+    op = SlidingWindowOperator("op", [p], 1.0, 0.24, 0.0, disable_adaptation=True)
+    m = MCMC("mcmc", j, [op], 1, checkpoint=base, checkpoint_frequency=1, every=0)
+    _quiet(m.run)
+
+
 WRITERS["save_parameters"] = _writer_save_parameters
+WRITERS["Optimizer.run"] = _writer_optimizer_run
+WRITERS["Optimizer.run(LBFGS)"] = _writer_optimizer_run_lbfgs
+WRITERS["MCMC.run"] = _writer_mcmc_run
 WRITERS["Optimizer.save_full_state"] = _writer_optimizer
 WRITERS["MCMC.save_full_state"] = _writer_mcmc
 
@@ -450,7 +503,7 @@ def run(ctx: Ctx):
     real_mac = {}
     writers = ["save_parameters"] if quick else list(WRITERS)
     for w in writers:
-        tr, mac = enumerate_real(ctx, os.path.join(root, w.replace(".", "_")), w, max_writes,
+        tr, mac = enumerate_real(ctx, os.path.join(root, w.replace(".", "_").replace("(", "_").replace(")", "")), w, max_writes,
                                  write_points="some")
         all_traces += tr
         real_mac[w] = mac
@@ -458,8 +511,8 @@ def run(ctx: Ctx):
     tr, mac = enumerate_real(ctx, os.path.join(root, "big"), "save_parameters", 2, big=True, write_points="some")
     all_traces += tr
     if quick:
-        for w in ("Optimizer.save_full_state", "MCMC.save_full_state"):
-            tr, mac2 = enumerate_real(ctx, os.path.join(root, w.replace(".", "_")), w, 2, write_points="some")
+        for w in ("Optimizer.save_full_state", "MCMC.save_full_state", "Optimizer.run", "Optimizer.run(LBFGS)", "MCMC.run"):
+            tr, mac2 = enumerate_real(ctx, os.path.join(root, w.replace(".", "_").replace("(", "_").replace(")", "")), w, 2, write_points="some")
             all_traces += tr
     shutil.rmtree(root, ignore_errors=True)
 
